@@ -93,6 +93,10 @@ def observer(got, pred, sp, call, sg, prog, ctx, part):
             try:
                 f = compiler.compile_expression(got, vars_)
                 gs = [autodiff.gradient(got, v) for v in vars_]
+                # a variable is identified by its name on every path: differentiating with respect to another
+                # Variable object of the same name is the same question
+                import optyx
+                gs_twin = [autodiff.gradient(got, optyx.Variable(v.name, lb=v.lb, ub=v.ub, domain=v.domain)) for v in vars_]
                 cg = compiler.compile_gradient(got, vars_)
             except Exception as ex:
                 bad('%s on the iterative path although the shallow tree is supported' % type(ex).__name__, tag)
@@ -108,6 +112,7 @@ def observer(got, pred, sp, call, sg, prog, ctx, part):
                 try:
                     hv = progjudge.tofloat(f(x))
                     hg = [progjudge.tofloat(g.evaluate(vals)) for g in gs]
+                    ht = [progjudge.tofloat(g.evaluate(vals)) for g in gs_twin]
                     hc = list(np.asarray(cg(x), dtype=float).reshape(-1))
                 except Exception as ex:
                     bad('callable built on the iterative path raises %s' % type(ex).__name__, tag)
@@ -116,6 +121,10 @@ def observer(got, pred, sp, call, sg, prog, ctx, part):
                 if not interp.close(hv, wv, tv):
                     bad('compiled value on the iterative path differs from the formula', {'got': hv, 'expected': wv, 'regime': tag})
                     return
+                for n, a, (w, t) in zip(names, ht, wg):
+                    if not interp.close(a, w, t):
+                        bad('gradient w.r.t. an equal-named Variable object differs on the iterative path', {'wrt': n, 'got': a, 'expected': w, 'regime': tag})
+                        return
                 for n, a, b, (w, t) in zip(names, hg, hc, wg):
                     if not interp.close(a, w, t) or not interp.close(float(b), w, t):
                         bad('gradient on the iterative path differs from the true derivative', {'wrt': n, 'symbolic': a, 'compiled': float(b), 'expected': w, 'regime': tag})
